@@ -40,6 +40,39 @@ def target_(E):
     return E.new(SP + ":Target", p=g, args=args, constraint=c), g, args, c
 
 
+def _find_apps(term, fname):
+    """applications of the uninterpreted function `fname` occurring in a term"""
+    import z3 as _z3
+    found, seen = [], set()
+
+    def walk(e):
+        if e.get_id() in seen:
+            return
+        seen.add(e.get_id())
+        if _z3.is_app(e) and e.decl().name() == fname:
+            found.append(e)
+            return
+        for ch in e.children():
+            walk(ch)
+    walk(term)
+    return found
+
+
+def _keys_of_particle(E, particle_u, with_q, what):
+    """(key of the target's importance run, key of the proposal's draw inside its constraint) read off a particle term
+    gf_generate_tr(p, KEY, constraint, args) - the contracts do not say how the algorithm derives these keys, only (C04) that they
+    are independent and come from the key it was given"""
+    import z3 as _z3
+    nt = _z3.simplify(particle_u)
+    E.require(f"C26.{what}.particle_is_a_target_importance_trace", _z3.is_app(nt) and nt.decl().name() == "gf_generate_tr" and nt.num_args() == 4)
+    k1 = None
+    if with_q:
+        draws = _find_apps(nt.arg(2), "q_random_weighted_choice")
+        E.require(f"C26.{what}.constraint_holds_one_draw_of_the_proposal", len(draws) == 1)
+        k1 = draws[0].arg(1)
+    return nt.arg(1), k1
+
+
 def _importance(with_q):
     tag = "proposal" if with_q else "prior"
 
@@ -52,16 +85,20 @@ def _importance(with_q):
         imp = E.new(SMC + ":Importance", target=tgt, q=q)
         k = key(E)
         pc = E.method(imp, "run_smc", k)
-        split = E.ctx.fn("split", U, z3.IntSort(), z3.IntSort(), U)
-        k0, k1 = split(k.t, 2, 0), split(k.t, 2, 1)
+        from theory import keys as KY
+        particles, lw = pc.fields["particles"], pc.fields["log_weights"]
+        # the keys are read off the particle: the target's importance run and (inside its constraint) the proposal's draw -
+        # whichever halves of whichever split they are
+        k0, k1 = _keys_of_particle(E, E.I.to_u(particles.at(z3.IntVal(0))), with_q, f"Importance.run_smc.{tag}")
         if with_q:
             tu = E.I.to_u(tgt)
             choice, lq = qc(q.t, k1, tu), qw(q.t, k1, tu)
             merged = T.chm_or(c.t, choice)
+            E.prove(f"C04.Importance.run_smc.{tag}.proposal_and_target_draw_with_independent_keys_derived_from_the_given_key", z3.And(
+                KY.independent(E.I, k0, k1), KY.derived_from(E.I, k0, k.t), KY.derived_from(E.I, k1, k.t)), also=["C26"])
         else:
             merged, lq = c.t, z3.RealVal(0)
         tr = T.gen_tr(g.t, k0, merged, args.t)
-        particles, lw = pc.fields["particles"], pc.fields["log_weights"]
         E.cover(f"smc.importance.{tag}.reached")
         E.prove(f"C26.Importance.run_smc.{tag}.particle_is_target_importance_on_constraint_merged_with_proposed_choices",
                 E.eq(particles.at(z3.IntVal(0)), UVal(tr, "Trace")))
@@ -74,8 +111,16 @@ def _importance(with_q):
         # conditional SMC: the retained choices are the particle; proposal weight by estimate_logpdf
         retained = chm(E, "retained")
         pc2 = E.method(imp, "run_csmc", k, retained)
-        tr2 = T.gen_tr(g.t, k0, T.chm_or(c.t, retained.t), args.t)
-        lq2 = ql(q.t, k1, retained.t, E.I.to_u(tgt)) if with_q else z3.RealVal(0)
+        k0c, _ = _keys_of_particle(E, E.I.to_u(pc2.fields["particles"].at(z3.IntVal(0))), False, f"Importance.run_csmc.{tag}")
+        tr2 = T.gen_tr(g.t, k0c, T.chm_or(c.t, retained.t), args.t)
+        if with_q:
+            # the proposal's density estimate of the retained choices: q.estimate_logpdf(some key, retained, target)
+            from pyvc.interp_ops import zreal as _zr
+            est = _find_apps(z3.simplify(_zr(pc2.fields["log_weights"].at(z3.IntVal(0)))), "q_estimate_logpdf")
+            E.require(f"C26.Importance.run_csmc.{tag}.uses_one_proposal_density_estimate_of_the_retained_choices", len(est) == 1)
+            lq2 = ql(q.t, est[0].arg(1), retained.t, E.I.to_u(tgt))
+        else:
+            lq2 = z3.RealVal(0)
         E.prove(f"C26.Importance.run_csmc.{tag}.retained_particle_and_weight", E.And(
             E.eq(pc2.fields["particles"].at(z3.IntVal(0)), UVal(tr2, "Trace")),
             E.eq(pc2.fields["log_weights"].at(z3.IntVal(0)), SReal(T.cdens(tr2, T.chm_or(c.t, retained.t)) - lq2))))
@@ -104,15 +149,26 @@ def t_importance_k(E):
         pc = E.method(imp, "run_smc", k)
         tu = E.I.to_u(tgt)
 
+        particles, lw = pc.fields["particles"], pc.fields["log_weights"]
+        # the per-particle keys are read off particle i (symbolic i): the target's importance run and the proposal's draw
+        i_any = E.ctx.const("i_any_particle", z3.IntSort())
+        ki, kq = _keys_of_particle(E, E.I.to_u(particles.at(i_any)), with_q, f"ImportanceK.run_smc.{tag}")
+        key_imp = lambda i: z3.substitute(ki, (i_any, i))
+        key_q = (lambda i: z3.substitute(kq, (i_any, i))) if with_q else None
+
         def spec(i, with_q=with_q, q=q):
             if with_q:
-                choice, lq = qc(q.t, sub(i), tu), qw(q.t, sub(i), tu)
+                choice, lq = qc(q.t, key_q(i), tu), qw(q.t, key_q(i), tu)
                 merged = T.chm_or(c.t, choice)
             else:
                 merged, lq = c.t, z3.RealVal(0)
-            tr = T.gen_tr(g.t, sub(i), merged, args.t)
+            tr = T.gen_tr(g.t, key_imp(i), merged, args.t)
             return tr, merged, lq
-        particles, lw = pc.fields["particles"], pc.fields["log_weights"]
+        from theory import keys as KY
+        i1, i2 = E.ctx.const("i_particle", z3.IntSort()), E.ctx.const("j_particle", z3.IntSort())
+        E.prove(f"C04.ImportanceK.run_smc.{tag}.particles_draw_with_independent_keys_derived_from_the_given_key", z3.Implies(
+            z3.And(0 <= i1, i1 < K.t, 0 <= i2, i2 < K.t, i1 != i2),
+            z3.And(KY.independent(E.I, key_imp(i1), key_imp(i2)), KY.derived_from(E.I, key_imp(i1), k.t))), also=["C26"])
         E.prove(f"C26.ImportanceK.run_smc.{tag}.particle_i_and_its_weight", forall_i(E, K.t, lambda i: E.And(
             E.eq(particles.at(i), UVal(spec(i)[0], "Trace")),
             E.eq(lw.at(i), SReal(T.cdens(spec(i)[0], spec(i)[1]) - spec(i)[2])),
